@@ -358,4 +358,44 @@ def decodeUtf8NoCb (bs : List UInt8) : Option Err :=
   | (_, some e) => some e
   | (d, none) => (finalize d).2
 
+/-! ### `on_codepoint` returning an error
+
+`if (decoder->on_codepoint(decoder->codepoint, decoder->user_data)) return AWS_OP_ERR;` — the update stops
+right after the call that failed (the code point has been handed over, the byte has been consumed). -/
+
+/-- why an update stopped early -/
+inductive Stop
+  | err (e : Err)      -- the decoder rejected a byte
+  | callback           -- `on_codepoint` returned non-zero
+  deriving DecidableEq, Repr
+
+/-- `aws_utf8_decoder_update` with a callback that records its argument and fails on its `k`-th call from now
+(0 = the next one): state, why it stopped, code points handed over, calls left before the failing one -/
+def updateFail (k : Nat) (d : Utf8) : List UInt8 → Utf8 × Option Stop × List Nat × Nat
+  | [] => (d, none, [], k)
+  | b :: rest =>
+    match updateByte d b with
+    | (d', some e, _) => (d', some (.err e), [], k)
+    | (d', none, none) => updateFail k d' rest
+    | (d', none, some cp) =>
+      match k with
+      | 0 => (d', some .callback, [cp], 0)
+      | k' + 1 =>
+        let r := updateFail k' d' rest
+        (r.1, r.2.1, cp :: r.2.2.1, r.2.2.2)
+
+/-- chunks, stop at the first error (decoder's or callback's), then finalize -/
+def runChunksFail (k : Nat) (d : Utf8) : List (List UInt8) → Option Stop × List Nat
+  | [] => (((finalize d).2).map Stop.err, [])
+  | c :: cs =>
+    match updateFail k d c with
+    | (_, some s, cps, _) => (some s, cps)
+    | (d', none, cps, k') => let r := runChunksFail k' d' cs; (r.1, cps ++ r.2)
+
+/-- `aws_decode_utf8` with such a callback -/
+def decodeUtf8Fail (k : Nat) (bs : List UInt8) : Option Stop × List Nat :=
+  match updateFail k Utf8.init bs with
+  | (_, some s, cps, _) => (some s, cps)
+  | (d, none, cps, _) => (((finalize d).2).map Stop.err, cps)
+
 end AwsVerif.Codec
